@@ -1,4 +1,4 @@
-import BumpVerif.Proofs.Live
+import BumpVerif.Proofs.Rewind
 import BumpVerif.Props.GenFacts
 /-!
 # C04 — returned pointers honour the requested and the minimum alignment
@@ -33,10 +33,10 @@ theorem dealloc_keeps_finger_aligned {E p sz} (s : St) (hE : EnvOK E) (h : Arena
 /-- **All histories.** After any admissible history every live block's address is a multiple of
 `MIN_ALIGN` (and non-null), and every chunk finger is `MIN_ALIGN`-aligned — including blocks that
 came out of `grow`/`shrink` and fingers moved by `dealloc`, rewinds and `reset`. -/
-theorem history_min_align {E} (hE : EnvOK E) (ops : List Op) (y : Sys) (inv : LiveInv E y) (hrun : RunOK E ops y) :
+theorem history_min_align {E} (hE : EnvOK E) (ops : List Op) (y : Sys) (inv : LiveInv E y) (hrun : RunOKFull E ops y) :
     (∀ b ∈ (sysRun E ops y).1.live, (sysRun E ops y).1.st.a.M ∣ b.ptr ∧ 0 < b.ptr) ∧
     (∀ c ∈ (sysRun E ops y).1.st.a.chunks, (sysRun E ops y).1.st.a.M ∣ c.ptr) := by
-  have h := (sysRun_live hE ops y inv hrun).1
+  have h := (sysRun_live_full hE ops y inv hrun).1
   exact ⟨fun b hb => ⟨(h.blocks b hb).1, (h.blocks b hb).2.1⟩, fun c hc => (h.wf.chunks c hc).ptr_al⟩
 
 /-- `grow` and `shrink` results honour the new alignment and `MIN_ALIGN` -/
